@@ -168,7 +168,16 @@ pub fn main(args: &[String]) {
           let m = NAMES[rng.below(NAMES.len())];
           u.insert(m.to_string(), random_content(&mut rng, m, long));
         }
-        ops.push(json!({"op": "Update", "u": u}));
+        // one update in six lists one of its modules twice: an earlier text (often one with a syntax error) first
+        if rng.chance(1, 6) {
+          let m = u.keys().next().unwrap().clone();
+          let earlier = if rng.chance(1, 2) { json!({"syn": true}) } else { random_content(&mut rng, &m, long) };
+          let mut b = serde_json::Map::new();
+          b.insert(m, earlier);
+          ops.push(json!({"op": "Update", "u": u, "before": b}));
+        } else {
+          ops.push(json!({"op": "Update", "u": u}));
+        }
       } else if k < 82 {
         let mut pairs = vec![];
         let cnt = if rng.chance(1, 4) { 2 } else { 1 };
